@@ -1,4 +1,4 @@
 SPECIFICATION Spec
-CONSTANTS Proto = "socks"  NoneOK = TRUE  AuthFirst = TRUE  KeepBuffered = TRUE  Cut = FALSE
+CONSTANTS Proto = "socks"  NoneOK = TRUE  AuthFirst = TRUE  KeepBuffered = TRUE  SharedBuf = FALSE  Cut = FALSE
 INVARIANT NoViolation
 CHECK_DEADLOCK FALSE
